@@ -144,8 +144,9 @@ def sync_data_nwi_laser_log(
 
     # find the shape of the data
     origin = np.amin(log["x"]), np.amin(log["y"])
-    px = ((log["x"] - origin[0]) / spot_size[0]).astype(int)
-    py = ((log["y"] - origin[1]) / spot_size[1]).astype(int)
+    # round off floating point error before truncation, 99.9999999 is pixel 100
+    px = np.round((log["x"] - origin[0]) / spot_size[0], 6).astype(int)
+    py = np.round((log["y"] - origin[1]) / spot_size[1], 6).astype(int)
     sync = np.full((py.max() + 1, px.max() + 1), np.nan, dtype=data.dtype)
 
     # calculate the indicies for start and end times of lines
